@@ -510,6 +510,39 @@ def _forward_view(it, attr):
     return None
 
 
+def _generator_view(cls, it, attr):
+    """A loop over `self._m(...)` where _m is a generator method of the class that yields exactly the elements of self.<attr>,
+    front to back (`yield from self.<attr>` / `for o in self.<attr>: ...; yield o`) reads as a loop over self.<attr>."""
+    if not (isinstance(it, ast.Call) and isinstance(it.func, ast.Attribute) and isinstance(it.func.value, ast.Name) and it.func.value.id == "self"):
+        return None
+    meth = next((n for n in cls.body if isinstance(n, ast.FunctionDef) and n.name == it.func.attr), None)
+    if meth is None:
+        return None
+    ys = [n for n in ast.walk(meth) if isinstance(n, (ast.Yield, ast.YieldFrom))]
+    if not ys:
+        return None
+    views = set()
+    for y in ys:
+        if isinstance(y, ast.YieldFrom):
+            views.add(_forward_view(y.value, attr))
+        else:
+            lp = next((p for p in _ancestors(y) if isinstance(p, ast.For)), None)
+            if lp is not None and isinstance(lp.target, ast.Name) and isinstance(y.value, ast.Name) and y.value.id == lp.target.id:
+                views.add(_forward_view(lp.iter, attr))
+            else:
+                views.add(None)
+    if views == {"forward"}:
+        return "forward"
+    return "transformed" if "transformed" in views else None
+
+
+def _ancestors(n):
+    n = getattr(n, "_parent", None)
+    while n is not None:
+        yield n
+        n = getattr(n, "_parent", None)
+
+
 def check_publisher_structure(ctx):
     nm = _norm(ctx, OBS, known={"_errorLoggerForObserver"})
     f = nm.find("LogPublisher.__call__")
@@ -519,7 +552,7 @@ def check_publisher_structure(ctx):
     q = QO + "__call__"
     ev = f.args.args[1].arg
     loops = [n for n in walk_local(f) if isinstance(n, ast.For)]
-    views = [(lp, _forward_view(lp.iter, "_observers")) for lp in loops]
+    views = [(lp, _forward_view(lp.iter, "_observers") or _generator_view(cls, lp.iter, "_observers")) for lp in loops]
     for lp, v in views:
         if v == "transformed":
             ctx.violation("publisher/forward-iteration", q + " | fan-out order", f"observers are visited through {src(lp.iter)}, not in registration order")
@@ -736,7 +769,24 @@ def check_filter_structure(ctx):
             w = g3.must_pass([g3.entry], set(pos) | set(neg), exc=False)
             ctx.check(w is None, "filter/forwards-iff-should-log", qo + " | every event routed", "an event can be routed to neither observer", witness=g3.describe(w))
         else:
-            _abstain(ctx, "filter/forwards-iff-should-log", "routing calls", "filter/routing-sequences")
+            # the recipient is chosen first and called once: `r = self._observer` / `r = self._negativeObserver`, then `r(event)`
+            picks = {}
+            for n in g3.ids(lambda n: n.kind == "stmt" and isinstance(n.ast, ast.Assign) and len(n.ast.targets) == 1 and isinstance(n.ast.targets[0], ast.Name)
+                            and src(n.ast.value) in ("self._observer", "self._negativeObserver")):
+                picks.setdefault(g3.node(n).ast.targets[0].id, {}).setdefault(src(g3.node(n).ast.value), []).append(n)
+            done = False
+            for local, by in picks.items():
+                calls = g3.find(lambda x, local=local: isinstance(x, ast.Call) and isinstance(x.func, ast.Name) and x.func.id == local and len(x.args) == 1 and src(x.args[0]) == e3)
+                if calls and set(by) == {"self._observer", "self._negativeObserver"} and g3.find(is_should):
+                    done = True
+                    ctx.check(all(g3.guarded(n, is_should, True) for n in by["self._observer"]), "filter/forwards-iff-should-log", qo + " | wrapped observer",
+                              "the wrapped observer is not chosen exactly under shouldLogEvent(event)")
+                    ctx.check(all(g3.guarded(n, is_should, False) for n in by["self._negativeObserver"]), "filter/forwards-iff-should-log", qo + " | negative observer",
+                              "the negative observer is not chosen exactly when shouldLogEvent(event) is false")
+                    w = g3.must_pass([g3.entry], calls, exc=False)
+                    ctx.check(w is None, "filter/forwards-iff-should-log", qo + " | every event routed", "an event can be routed to neither observer", witness=g3.describe(w))
+            if not done:
+                _abstain(ctx, "filter/forwards-iff-should-log", "routing calls", "filter/routing-sequences")
     # LogLevelFilterPredicate: the levels enter the decision only through order comparisons -> three orderings are the whole domain
     c = nm.find("LogLevelFilterPredicate.__call__")
     cls = nm.find("LogLevelFilterPredicate")
